@@ -273,7 +273,7 @@ def register(_reg, _mt, STD):  # noqa: ANN001
     _extend('C15', [round5.rule_parallel_converters_unfiltered, round5.rule_string_alias_is_one_name, rename.rule_c20_r3, rename.rule_c20_r4, round5.rule_layout_dispatch, round5.rule_style_guard_agrees])
     _extend('C16', [round5.rule_one_field_list, round5.rule_explicit_hash_before_eq])
     _extend('C17', [round5.rule_annotation_scopes, round5.rule_parameter_order, forwarding.rule_spec_substitution_keeps_settings, round5.rule_declarations_removed, round5.rule_layout_dispatch])
-    _extend('C18', [round5.rule_handler_sets_are_tuples, round5.rule_keycache_forwards_everything, classes_rules.rule_c17_r1, round5.rule_field_settings_copied, round5.rule_any_keeps_handlers])
+    _extend('C18', [round5.rule_handler_sets_are_tuples, round5.rule_keycache_forwards_everything, classes_rules.rule_c17_r1, round5.rule_field_settings_copied, round5.rule_any_keeps_handlers, agreement.rule_c05_r3])
     _extend('C19', [round5.rule_io_siblings_agree])
     _extend('C01', [conditions.rule_c13_r3])
     _extend('C02', [forwarding.rule_c18_r3])
